@@ -102,7 +102,7 @@ def replay(args):
         for f in init["files"]:
             cat[f] = full_file(f) if (init["kind"] == "dsk" and init["full"]) else stored_file(f, init.get("big", False))
         try:
-            b = materialise(init)
+            b = bytes(h["initbuf"]) if h.get("initbuf") is not None else materialise(init)      # initbuf: an image written by the specification's writer
         except Exception as e:
             return {"id": hid, "init": {"kind": h["init"]["kind"], "big": h["init"]["big"], "files": h["init"]["files"]}, "cat": [], "events": [],
                     "construct_error": "%s: %s" % (type(e).__name__, str(e)[:80])}
